@@ -69,6 +69,8 @@ pub struct Hist {
     pub last_obs: Obs,
     /// wasm event attributes of the last accepted tx (key, value)
     pub last_attrs: Vec<(String, String)>,
+    /// bank calls made by the last tx / send (fault injection bookkeeping)
+    pub last_calls: u64,
     pub w: World,
     pub lps: Vec<String>,        // canonical LP denoms seen so far
     pub pos_ids: Vec<String>,    // position identifiers seen so far (full, with prefix)
@@ -78,7 +80,7 @@ pub struct Hist {
 
 impl Hist {
     pub fn new(cfg: WorldCfg) -> Hist {
-        Hist { last_obs: Obs::default(), last_attrs: vec![], w: World::new(cfg), lps: vec![], pos_ids: vec![], farm_ids: vec![], pending_fault: None }
+        Hist { last_obs: Obs::default(), last_attrs: vec![], last_calls: 0, w: World::new(cfg), lps: vec![], pos_ids: vec![], farm_ids: vec![], pending_fault: None }
     }
 
     pub fn init_line(&self) -> String {
@@ -242,6 +244,7 @@ impl Hist {
             }
             _ => Err("bad contract".into()),
         };
+        self.last_calls = self.w.fault.borrow().calls;
         self.w.arm(None);
         self.last_attrs = captured;
         match res {
@@ -261,7 +264,7 @@ impl Hist {
         match t.s() {
             "tx" => {
                 let l = line.to_string();
-                match crate::guarded(|| Ok(self.exec_tx(&l))) { Ok(s) => s, Err(_) => { self.w.arm(None); "err".to_string() } }
+                match crate::guarded(|| Ok(self.exec_tx(&l))) { Ok(s) => s, Err(_) => { self.last_calls = self.w.fault.borrow().calls; self.w.arm(None); "err".to_string() } }
             }
             "send" => {
                 let from = t.s().to_string(); let to = t.s().to_string();
@@ -269,6 +272,7 @@ impl Hist {
                 let fault = self.pending_fault.take();
                 self.w.arm(fault);
                 let r = self.w.app.send_tokens(self.w.a(&from), self.w.a(&to), &cs);
+                self.last_calls = self.w.fault.borrow().calls;
                 self.w.arm(None);
                 if r.is_ok() { "ok".into() } else { "err".into() }
             }
@@ -497,6 +501,7 @@ impl Runner {
     }
     pub fn step(&mut self, line: &str, o: &mut Out) -> String {
         let before = self.h.last_obs.clone();
+        self.ms.fault_active = self.h.pending_fault.is_some() && !line.starts_with("fault");
         let res = self.h.exec_line(line);
         o.line(line, &res);
         if !line.starts_with("fault") {
